@@ -576,6 +576,7 @@ func rulesC14(c *Ctx) {
 	c14LockInventory(c)
 	c14Order(c)
 	c14SpawnShared(c)
+	c14Globals(c)
 	c14Confinement(c)
 	c14Escape(c)
 	c14LiveReads(c)
@@ -590,6 +591,130 @@ func rulesC14(c *Ctx) {
 	configImmutableAll(c)
 	buildCopiesConfig(c)
 	witnessRules(c, "C14")
+}
+
+// c14Globals: package-level variables are shared by every execution of every policy instance. Each one must be
+// written only by its package's initialiser and, afterwards, used only in ways that are safe from any number of
+// goroutines: read, compared, passed on as an immutable value (error sentinels, reflect.Type), looked up (maps),
+// received from (channels), or used through a type of package sync / sync/atomic. A package-level object of any
+// other type whose methods are called while executions run (a *rand.Rand, a bytes.Buffer, a cache…) is shared
+// mutable state without a lock.
+func c14Globals(c *Ctx) {
+	c.Rule("globals")
+	inScope := func(g *ssa.Global) bool {
+		if g.Pkg == nil || !strings.HasPrefix(g.Pkg.Pkg.Path(), modPath) {
+			return false
+		}
+		for _, rel := range scopePkgs {
+			if g.Pkg.Pkg.Path() == c.P.pkgPath(rel) {
+				return true
+			}
+		}
+		return false
+	}
+	safeRecv := func(t types.Type, method string) bool {
+		if p, ok := t.(*types.Pointer); ok {
+			t = p.Elem()
+		}
+		n, ok := t.(*types.Named)
+		if !ok || n.Obj().Pkg() == nil {
+			return false
+		}
+		switch n.Obj().Pkg().Path() {
+		case "sync", "sync/atomic":
+			return true
+		}
+		// reviewed: documented as safe for concurrent use by multiple goroutines
+		switch n.Obj().Pkg().Path() + "." + n.Obj().Name() {
+		case "regexp.Regexp": // "safe for concurrent use by multiple goroutines, except for configuration methods, such as Longest"
+			return method != "Longest"
+		case "net/http.Client", "net/http.Transport": // "Clients and Transports are safe for concurrent use by multiple goroutines"
+			return true
+		}
+		return false
+	}
+	immutableIface := func(t types.Type) bool {
+		s := types.TypeString(t, nil)
+		return s == "error" || s == "reflect.Type"
+	}
+	seen := map[*ssa.Global]bool{}
+	ok := true
+	fail := func(g *ssa.Global, in ssa.Instruction, msg string) {
+		ok = false
+		c.Fail(g.Pkg.Pkg.Name()+"."+g.Name(), c.P.Pos(in.Pos()), "package-level variable "+g.Name()+" "+msg, "")
+	}
+	for _, fn := range c.P.Funcs {
+		isInit := (fn.Name() == "init" || strings.HasPrefix(fn.Name(), "init#")) && fn.Parent() == nil && fn.Signature.Recv() == nil
+		for _, b := range fn.Blocks {
+			for _, in := range b.Instrs {
+				for _, op := range in.Operands(nil) {
+					g, isG := (*op).(*ssa.Global)
+					if !isG || !inScope(g) {
+						continue
+					}
+					seen[g] = true
+					if isInit {
+						continue
+					}
+					elem := g.Type().(*types.Pointer).Elem()
+					switch x := in.(type) {
+					case *ssa.Store:
+						if x.Addr == g {
+							fail(g, in, "is assigned outside its package's initialiser by "+c.fn(fn)+": concurrent executions share it")
+						}
+						continue
+					case *ssa.UnOp:
+						if x.Op != token.MUL {
+							continue
+						}
+						// uses of the loaded value
+						for _, use := range *x.Referrers() {
+							switch u := use.(type) {
+							case *ssa.MapUpdate:
+								if u.Map == x {
+									fail(g, use, "is a map that "+c.fn(fn)+" updates at run time without a lock")
+								}
+							case *ssa.FieldAddr, *ssa.IndexAddr:
+								if _, w, _ := addrUses(u.(ssa.Value), map[ssa.Value]bool{}); w {
+									fail(g, use, "is modified in place by "+c.fn(fn)+" at run time without a lock")
+								}
+							case ssa.CallInstruction:
+								cc := u.Common()
+								if cc.IsInvoke() && cc.Value == x {
+									if !immutableIface(elem) {
+										fail(g, use, fmt.Sprintf("(type %s) has a method called on it by %s while executions run; only error sentinels, reflect.Type and sync / sync/atomic objects may be shared this way", types.TypeString(elem, nil), c.fn(fn)))
+									}
+									continue
+								}
+								if cal := calleeOf(cc); cal != nil && cal.Signature.Recv() != nil && len(cc.Args) > 0 && cc.Args[0] == x {
+									if !safeRecv(cal.Signature.Recv().Type(), cal.Name()) && !immutableIface(elem) {
+										fail(g, use, fmt.Sprintf("(type %s) has method %s called on it by %s while executions run: the object is shared by all concurrent executions and is not a sync / sync/atomic type", types.TypeString(elem, nil), cal.Name(), c.fn(fn)))
+									}
+								}
+							}
+						}
+						continue
+					case ssa.CallInstruction:
+						// &global used directly as a receiver (var mu sync.Mutex; mu.Lock())
+						cc := x.Common()
+						if cal := calleeOf(cc); cal != nil && cal.Signature.Recv() != nil && len(cc.Args) > 0 && cc.Args[0] == g {
+							if !safeRecv(cal.Signature.Recv().Type(), cal.Name()) {
+								fail(g, in, fmt.Sprintf("(type %s) has method %s called on it by %s while executions run: the object is shared by all concurrent executions and is not a sync / sync/atomic type", types.TypeString(elem, nil), cal.Name(), c.fn(fn)))
+							}
+						}
+					case *ssa.FieldAddr, *ssa.IndexAddr:
+						if _, w, _ := addrUses(x.(ssa.Value), map[ssa.Value]bool{}); w {
+							fail(g, in, "is modified in place by "+c.fn(fn)+" at run time without a lock")
+						}
+					}
+				}
+			}
+		}
+	}
+	c.Floor("package-level variables examined", len(seen), 8)
+	if ok {
+		c.Ok("library#globals", "", fmt.Sprintf("%d package-level variables: assigned only by initialisers; at run time only read, compared, looked up, or used through sync types", len(seen)))
+	}
 }
 
 func configImmutableAll(c *Ctx) {
